@@ -72,6 +72,7 @@ class Scheduler:
         self.point_log = None                 # optional list of (thread, kind) per point
         self.shared_access = None
         self.extra = None
+        self.stalled = 0.0                # virtual time that passed through stall deviations
         self.slice = 150                  # fairness: max consecutive points of one thread while others are enabled
         self._streak = 0
         self.choices_open = True          # harness may close the window in which deviations are offered
@@ -218,7 +219,9 @@ class Scheduler:
         c -= len(en)
         if timers:
             if c == 0:                       # stall: time jumps to the next timer
+                before = self.now
                 self._advance_time()
+                self.stalled += self.now - before
                 return self.point('after-stall')
             c -= 1
         target = extras[c][2](self)          # harness action; may name a thread to run now
